@@ -67,6 +67,15 @@ CLAIMED = {
              'positions on 1-2 traces; oracle = the condition evaluated independently at every visited position by explicit stepping.',
         ref='DESIGN.md §6 C04', note='find_spec is for one trace and conditions that do not change the state (Neutral); whenever/find/g over several traces are covered by scanLoop_step + scan_restores and the correspondence.',
         technique='Lean 4 proof (loop invariant by induction) + correspondence'),
+    'C13': dict(
+        text='Two layers. Concrete model: read_hit / read_miss (a read of a virtual signal looks the current timestamp up; a hit returns the '
+             'cached value and changes nothing, a miss evaluates the body and inserts exactly that pair), defsig_listed, kernel-evaluated '
+             'instances of the ~/# rewriting at definition. Abstract machine over every history of jumps, reads and resamplings: '
+             'read_after_any_history (whatever a read returns is the body value at the current index; a cached value is never served for '
+             'another time point; resampling drops the cache) by run_inv. Correspondence: bodies x visit orders incl. @, find, whenever, '
+             'repeated reads, intervening sample-at, definition under in-scope/in-group/in-groups; oracle = v vs body text in place.',
+        ref='DESIGN.md §6 C13', note='Single trace; strictly increasing timestamps (increasing_identifies). The link between the concrete read and the abstract read step is by read_hit/read_miss, not a full refinement proof.',
+        technique='Lean 4 proof (cache invariant over all operation histories) + correspondence'),
 }
 
 REASONS_PENDING = 'check under construction in this round (DESIGN.md §13 build order); not a claim of inapplicability'
